@@ -565,5 +565,13 @@ def check(run, replay=None):
                        '262..300 polls so that the sequence passes 252 -> 0.  Model and C++ (both scheduler builds) are compared on every frame and the final state incl. next time/period/offset/sequence; the '
                        'oracle is an abstract per-device scheduler (grid = open time + offset + n x period, fire at the first poll strictly after the grid point) that also checks priority, '
                        'identifier, payload, interval field = period/10 and the sequence 0..252.  non-trivial = distinct case')
-    for fs in ('w64', 'w32'):
+    for fs in (() if (replay and any(l.startswith('# family: hb-gf-') for l in open(replay))) else ('w64', 'w32')):
         vlib.correspond(run, 'hb-' + fs, 'h_node', fs, 'NODE', cases, oracle_for(fs) or oracle, None, known=known, model_args=[fs])
+    # heartbeats forced by request group functions on multi-device nodes (each device with its own interval): cases and oracle of the C09
+    # development, model with the library's group function handlers
+    greplay = bool(replay) and any(l.startswith('# family: hb-gf-') for l in open(replay))
+    if greplay or not replay:
+        import random, p_C09
+        gcases = cases if greplay else p_C09.hb_per_device_cases(random.Random(run.seed * 7919 + 12), run.tier != 'quick')
+        for fs in ('w64', 'w32'):
+            vlib.correspond(run, 'hb-gf-' + fs, 'h_node', fs, 'NODEGF', gcases, p_C09.oracle, p_C09.nontrivial, known=p_C09.known, model_args=[fs])
